@@ -185,6 +185,14 @@ inline int32_t opn2_cvtU32(int32_t x)
     return (uint32_t)opn2_cvtS32(x) - (uint32_t)INT32_MIN;
 }
 
+#ifdef OPNMIDI_VERIF
+/* Verification taps (thread-local, NULL by default): every chip register write and every mixed audio period */
+typedef void (*opnmidi_verif_tap_fn)(void *synth, int kind, size_t chip, unsigned port, unsigned reg, unsigned value);
+typedef void (*opnmidi_verif_frames_fn)(void *player, long frames);
+extern __thread opnmidi_verif_tap_fn opnmidi_verif_tap;
+extern __thread opnmidi_verif_frames_fn opnmidi_verif_frames;
+#endif
+
 #if defined(ADLMIDI_AUDIO_TICK_HANDLER)
 extern void opn2_audioTickHandler(void *instance, uint32_t chipId, uint32_t rate);
 #endif
